@@ -550,4 +550,36 @@ func (c *Ctx) ruleCompactEnc(rule string) {
 		}
 	})
 	c.ob(rule, "encodeUint:bigmode-length-byte", f.Pos(), bigOK, "big-integer mode length byte must be ((numBytes-4)<<2)+3")
+	// number of payload bytes = ceil(bitlen/8): a loop shifting right by exactly 8 with a +1 counter, or (bits.Len(i)+7)/8
+	loopForm, closedForm, closedBad := false, false, ""
+	eachInstr(f, func(b *ssa.BasicBlock, _ int, in ssa.Instruction) {
+		bo, ok := in.(*ssa.BinOp)
+		if !ok {
+			return
+		}
+		if bo.Op == token.SHR {
+			if k, ok := constInt(bo.Y); ok && k == 8 && reachable(b, b) && len(b.Succs) > 0 {
+				if _, isPhi := bo.X.(*ssa.Phi); isPhi {
+					loopForm = true
+				}
+			}
+		}
+		if bo.Op == token.QUO {
+			if k, ok := constInt(bo.Y); ok && k == 8 {
+				if add, ok := bo.X.(*ssa.BinOp); ok && add.Op == token.ADD {
+					if call, ok := stripConv(add.X).(*ssa.Call); ok && strings.HasPrefix(calleeName(&call.Call), "math/bits.Len") {
+						if kk, ok := constInt(add.Y); ok {
+							if kk == 7 {
+								closedForm = true
+							} else {
+								closedBad = fmt.Sprintf("(bits.Len(i)+%d)/8", kk)
+							}
+						}
+					}
+				}
+			}
+		}
+	})
+	c.ob(rule, "encodeUint:bigmode-byte-count", f.Pos(), (loopForm || closedForm) && closedBad == "",
+		"the number of payload bytes of the big-integer mode must be ceil(bitlen/8) (a >>8 counting loop, or (bits.Len(i)+7)/8); found "+closedBad+": a most significant zero byte is emitted for values whose bit length is a multiple of 8 (non-canonical, rejected by the decoder)")
 }
